@@ -175,6 +175,9 @@ def psd_checks(which):
         ifg = I.Interferogram(z.copy(), dx=dx)
         p = ifg.psd()
         check('psd-object-axes', bool(np.isclose(p.x[0, W // 2], 0) and np.isclose(p.y[H // 2, 0], 0)))
+        # its sample spacing is the frequency step of the x axis, 1/(W dx): a scalar, consistent with the axis it carries
+        check('psd-object-dx-is-the-x-frequency-step', bool(np.ndim(p.dx) == 0 and np.isclose(p.dx, 1 / (W * dx), rtol=1e-12)
+                                                            and (W < 2 or np.allclose(np.diff(np.broadcast_to(p.x, (H, W)), axis=1), p.dx))))
         v = float(ifg.bandlimited_rms(flow=0, fhigh=None))
         check('bandlimited-rms-runs', bool(np.isfinite(v) and v >= 0))
         # the class methods are the functions: same spectrum, same per-axis frequency grids (square data or not), same band RMS
